@@ -20,7 +20,7 @@ Scenario:
 The sender's `out` is a recording tap; only the public API / attributes are used.
 
 Trace events (uniform records, all integers except e/type):
-  S  a NEW segment appeared on out (logged inside the tap, i.e. before next_seq moves): seq, size
+  S  a NEW segment appeared on out (logged inside the tap; ns = the segment's number, see Tap.put): seq, size
   A  put(ack) returned: ackno, rtt sample (as the sender computes it: now - ack.time), seq = segment retransmitted
      during the call (-1 none), nrx = number of segments put on out during the call
   T  a retransmission timer fired (one kernel step): seq = retransmitted segment
@@ -146,12 +146,15 @@ def run_one(sc):
             pid = pkt.packet_id
             if len(ev) > 1500:
                 raise RuntimeError("runaway: more than 1500 events")     # e.g. a send loop that never blocks
-            new = (pid == snd.next_seq) and pid not in last_tx
+            # a NEW segment: this sequence number appears for the first time, and it is the sender's next one -- whether
+            # next_seq is advanced before or after the segment is handed on is the implementation's business, so the
+            # record shows next_seq as it is at the moment of sending, i.e. the segment's own number
+            new = pid not in last_tx and snd.next_seq in (pid, pid + pkt.size)
             last_tx[pid] = env.now
             if st["in_put"]:
                 st["put_out"].append(pid)
             elif new:
-                log(e="S", seq=iv(pid), size=iv(pkt.size))
+                log(e="S", seq=iv(pid), size=iv(pkt.size), ns=iv(pid))
             else:
                 st["step_rx"].append(pid)
 
